@@ -67,7 +67,7 @@ Proof.
   destruct e; try discriminate; cbn [proj_ev0].
   - destruct (keep_ct ct m name); reflexivity.
   - reflexivity.
-  - destruct (filter (fun x => keep_ct ct m (fst x)) sources); reflexivity.
+  - cbv zeta. destruct (table_delivered ct m slot (filter (fun x => keep_ct ct m (fst x)) sources)); reflexivity.
 Qed.
 
 Lemma proj_ev_leaf T v ct m kc e : leaf_ev e = true -> proj_ev T v ct m kc e = proj_ev0 ct m e.
